@@ -2,10 +2,15 @@ import BarterModel.Driver.Common
 import BarterModel.Model.ExecManager
 /-!
 Line-protocol driver for C07. Ops:
-  `init T n`                      manager for exchange 0 with `n` instruments and request timeout `T`
+  `init T n [m]`                  manager for exchange 0 with `n` instruments, request timeout `T` and `m`
+                                  configured assets (default 0: no asset name is known)
   `open|cancel ex ins strat cid body delay reply fills eex eins estrat ecid ebody`
                                   request (key, body) + the scripted client's behaviour:
-                                  `delay` = `never` | ticks, `reply` = `ok` | `rej` | `inv<i>`,
+                                  `delay` = `never` | ticks, `reply` = `ok` | `rej` | `inv<i>` |
+                                  `conn_timeout` | `conn_offline` | `conn_socket` (Connectivity error as the
+                                  client's answer) | `ainv<a>` | `bal<a>` (AssetInvalid / BalanceInsufficient
+                                  naming asset `a`) | `rate` | `acx` | `aff` (RateLimit, OrderAlreadyCancelled,
+                                  OrderAlreadyFullyFilled),
                                   `fills` = 0|1, echoed key / body
   `adv dt`                        time advances, every timer fires in order (prompt polls)
   `jump dt`                       the clock jumps, then everything ready is polled once (late poll)
@@ -26,6 +31,13 @@ def outcomeStr : Outcome → String
   | .rejected => "rej"
   | .invalidIns i => s!"inv{i}"
   | .timeout => "timeout"
+  | .offline => "offline"
+  | .socket => "socket"
+  | .assetInvalid a => s!"ainv{a}"
+  | .balanceInsufficient a => s!"bal{a}"
+  | .nameless .rateLimit => "rate"
+  | .nameless .orderAlreadyCancelled => "acx"
+  | .nameless .orderAlreadyFullyFilled => "aff"
 
 def statusStr : Status → String
   | .running => "running"
@@ -46,7 +58,15 @@ def obsEvents (evs : List Event) (withFate : Bool) : List String :=
 def parseReply (s : String) : Option Reply :=
   if s == "ok" then some .ok
   else if s == "rej" then some .rejected
+  else if s == "conn_timeout" then some (.connectivity .timeout)
+  else if s == "conn_offline" then some (.connectivity .offline)
+  else if s == "conn_socket" then some (.connectivity .socket)
+  else if s == "rate" then some (.nameless .rateLimit)
+  else if s == "acx" then some (.nameless .orderAlreadyCancelled)
+  else if s == "aff" then some (.nameless .orderAlreadyFullyFilled)
   else if s.startsWith "inv" then ((s.drop 3).toString.toNat?).map .invalidIns
+  else if s.startsWith "ainv" then ((s.drop 4).toString.toNat?).map .assetInvalid
+  else if s.startsWith "bal" then ((s.drop 3).toString.toNat?).map .balanceInsufficient
   else none
 
 def parseDelay (s : String) : Option (Option Nat) :=
@@ -72,7 +92,7 @@ def parseReq (kind : Kind) : List String → Option ReqSpec
   | _ => none
 
 inductive Op
-  | init (t n : Nat)
+  | init (t n m : Nat)
   | req (q : ReqSpec)
   /-- the request is put on the manager's request channel and the sender does NOT yield: the manager
   sees it only together with whatever the following ops send (a burst within one wake-up) -/
@@ -84,8 +104,12 @@ inductive Op
 def parseOp : List String → Option Op
   | ["init", t, n] =>
     match t.toNat?, n.toNat? with
-    | some t, some n => some (.init t n)
+    | some t, some n => some (.init t n 0)
     | _, _ => none
+  | ["init", t, n, m] =>
+    match t.toNat?, n.toNat?, m.toNat? with
+    | some t, some n, some m => some (.init t n m)
+    | _, _, _ => none
   | "open" :: rest => (parseReq .open rest).map .req
   | "cancel" :: rest => (parseReq .cancel rest).map .req
   | "open+" :: rest => (parseReq .open rest).map .reqBurst
@@ -105,12 +129,12 @@ def mObs (old : State) (s : State) : List String :=
   obsEvents (s.out.drop old.out.length) true ++ [s!"status {statusStr s.status}"]
 
 def model : Drv MSt where
-  init := ⟨⟨0, 0, 0⟩, init⟩
+  init := ⟨⟨0, 0, 0, 0⟩, init⟩
   step m toks :=
     match parseOp toks with
     | none => (m, ["bad-op"])
-    | some (.init t n) =>
-      let m' : MSt := ⟨⟨0, n, t⟩, init⟩
+    | some (.init t n na) =>
+      let m' : MSt := ⟨⟨0, n, t, na⟩, init⟩
       (m', mObs m'.s m'.s)
     | some (.req q) =>
       let s1 := run m.cfg m.s [.intake q]
@@ -167,11 +191,11 @@ def sEmit (s : SSt) (t : Nat) (late : Bool) : SSt × List String :=
     (s', obsEvents evs fateKnown)
 
 def spec : Drv SSt where
-  init := ⟨⟨0, 0, 0⟩, 0, false, true, []⟩
+  init := ⟨⟨0, 0, 0, 0⟩, 0, false, true, []⟩
   step s toks :=
     match parseOp toks with
     | none => (s, ["bad-op"])
-    | some (.init t n) => (⟨⟨0, n, t⟩, 0, true, false, []⟩, ["nev 0"])
+    | some (.init t n na) => (⟨⟨0, n, t, na⟩, 0, true, false, []⟩, ["nev 0"])
     | some (.req q) =>
       if !s.running || s.broken then (s, [])
       else if !s.cfg.configured q.key then ({ s with broken := true }, [])
